@@ -78,6 +78,15 @@ Theorem C08_byte_write_is_sample_write :
     rmap bw_enc (byte_write enc_block p wb bytes) = rmap sw_enc (sample_write enc_block p ws (decoded en (N.to_nat nb) bytes)).
 Proof. exact Cross_writes.byte_write_is_sample_write. Qed.
 
+Theorem C08_channel_write_is_sample_write :
+  forall enc_block p e0 ch nb bs (chans : list (list Z)) m,
+    1 <= ch <= 8 -> 1 <= bs -> si_channels (e_si e0) = ch ->
+    length chans = N.to_nat ch -> Forall (fun c => length c = m) chans ->
+    let wc := {| cw_enc := e0; cw_bufs := repeat [] (N.to_nat ch); cw_channels := ch; cw_frame_sample_size := bs; cw_bytes_per_sample := nb |} in
+    let ws := {| sw_enc := e0; sw_buf := []; sw_channels := ch; sw_frame_sample_size := ch * bs; sw_bytes_per_sample := nb |} in
+    rmap cw_enc (channel_write enc_block p wc chans) = rmap sw_enc (sample_write enc_block p ws (concat (multizip chans))).
+Proof. exact Cross_writes.channel_write_is_sample_write. Qed.
+
 (* ... and a FlacChannelWriter run (any list of well-formed write arguments) IS the FlacSampleWriter run over the
    interleaving of everything written *)
 Theorem C08_channel_run_is_sample_run :
